@@ -169,7 +169,8 @@ func (k msgServer) PurchaseWrkChainStateStorage(goCtx context.Context, msg *type
 	maxParam := k.GetParamMaxStorageLimit(ctx)
 	wrkchainStorageAfter := wrkchainStorage.InStateLimit + msg.Number
 
-	if wrkchainStorageAfter > maxParam {
+	// wrkchainStorageAfter < InStateLimit means the uint64 addition wrapped around
+	if wrkchainStorageAfter > maxParam || wrkchainStorageAfter < wrkchainStorage.InStateLimit {
 		return nil, sdkerrors.Wrap(types.ErrExceedsMaxStorage, fmt.Sprintf("%d will exceed max storage of %d", wrkchainStorageAfter, maxParam))
 	}
 
